@@ -180,6 +180,66 @@ def fresh_bytes_case(util, n, a1, a2):
     return None
 
 
+class Loose(object):
+    """entropy source that returns MORE bytes than asked (answer + surplus)"""
+
+    def __init__(self, answers):
+        self.answers = answers
+        self.i = 0
+
+    def __call__(self, nbytes):
+        if self.i >= len(self.answers):
+            raise Exhausted(nbytes, self.i)
+        a = self.answers[self.i]
+        self.i += 1
+        return a
+
+
+def longread_case(util, n, a1, surplus, a2):
+    """an over-long answer is used like its first bytes, and nothing of it
+    leaks into a later, independent draw"""
+    r1 = run_randrange(util, n, [a1])
+    r2 = run_randrange(util, n, [a2])
+    if r1[0] != "value" or r2[0] != "value":
+        return None
+    try:
+        v = util.randrange(n, Loose([a1 + surplus]))
+    except Exception as e:
+        return ("long-read:raises", r1[1], "%s: %s" % (type(e).__name__, e))
+    if v != r1[1]:
+        return ("long-read:value", r1[1], v)
+    again = run_randrange(util, n, [a2])
+    if again != r2:
+        return ("long-read:leaks-into-next-draw", r2, again)
+    return None
+
+
+def shard_longread(arg):
+    orders = arg
+    from ecdsa import util
+    sh = Shard()
+    for n in orders:
+        need = run_randrange(util, n, [])
+        size = need[1]
+        ans = all_answers(size)
+        sub = ans[:: max(1, len(ans) // 16)]
+        for a1 in sub:
+            for surplus in (b"\x00", b"\xff", b"\xa5\x5a\x01"):
+                for a2 in sub[::4]:
+                    sh.n += 1
+                    sh.nt += 1
+                    bad = longread_case(util, n, a1, surplus, a2)
+                    if bad:
+                        sh.hist["fail:" + bad[0]] += 1
+                        sh.violation("longread", bad[0],
+                                     dict(n=n, a1=a1, surplus=surplus, a2=a2),
+                                     bad[1], bad[2])
+    sh.extra["executions"] = sh.n
+    sh.sample(dict(order=orders[0], deviation="entropy source returns more "
+                   "bytes than requested"), cap=1)
+    return sh
+
+
 class Sha(object):
     """deterministic infinite stream sha256(seed || ctr), counts bytes"""
 
@@ -425,6 +485,9 @@ def replay(check, case):
         bad = api_case(case["rec"], case["seed"], case["digest"])
     elif check == "fresh":
         bad = fresh_bytes_case(util, case["n"], case["a1"], case["a2"])
+    elif check == "longread":
+        bad = longread_case(util, case["n"], case["a1"], case["surplus"],
+                            case["a2"])
     elif check == "adv":
         bad = adversarial_case(case["n"], case["kind"])
     elif check == "seed":
@@ -482,6 +545,7 @@ def main(ctx):
     fr = [2, 3, 5, 16, 17, 127, 128, 129, 130, 255, 256, 257, 1000, 4095, 4096]
     for ch in common.chunks(fr, ctx.jobs):
         jobs.append((shard_fresh, "successive-draws", ch))
+        jobs.append((shard_longread, "over-long-answers", ch))
     real = [("curve:" + c.name, int(c.order)) for c in catalog.real_curves()]
     for k in (8, 9, 16, 64, 160, 161, 256, 521):
         real += [("2^%d%+d" % (k, d), (1 << k) + d) for d in (-1, 0, 1, 2)]
